@@ -1,6 +1,7 @@
 import GV.Model.Witness
 import GV.Model.WitnessSym
 import GV.Gen.RuleLists
+import GV.Gen.WitnessFacts
 /-!
 C28 — Spending requires a valid signature from the owner.
 
@@ -141,6 +142,28 @@ theorem rules_listed :
     "conway.UtxoValidateSignatures" ∈ GV.Gen.RuleLists.dijkstra ∧
     "conway.UtxoValidateRequiredVKeyWitnesses" ∈ GV.Gen.RuleLists.dijkstra ∧
     "conway.UtxoValidateCollateralVKeyWitnesses" ∈ GV.Gen.RuleLists.dijkstra := by
+  decide
+
+/-- Regenerated source facts: the order of the three sub-checks of `UtxoValidateSignatures`,
+    every byte-length comparison and the branch conditions of the input / collateral checks as
+    they stand in ledger/common/{verify,witness,rules}.go on this run. -/
+theorem source_facts :
+    GV.Gen.WitnessFacts.signaturesCalls =
+      ["ValidateVKeyWitnesses", "ValidateBootstrapWitnesses", "ValidateInputVKeyWitnesses"] ∧
+    GV.Gen.WitnessFacts.verifyVKeySignature_lens =
+      [("pubKey", "!=", "ed25519.PublicKeySize"), ("sig", "!=", "ed25519.SignatureSize")] ∧
+    GV.Gen.WitnessFacts.bootstrap_lens =
+      [("bw.PublicKey", "!=", "ed25519.PublicKeySize"), ("bw.Signature", "!=", "ed25519.SignatureSize")] ∧
+    GV.Gen.WitnessFacts.byronRoot_lens = [("pubkey", "!=", "32"), ("chainCode", "!=", "32")] ∧
+    GV.Gen.WitnessFacts.collateral_lens = [("collateral", "==", "0"), ("w.Vkey()", "==", "0")] ∧
+    GV.Gen.WitnessFacts.required_lens =
+      [("tx.RequiredSigners()", "+", "len(tx.Withdrawals())"), ("required", "==", "0"),
+       ("w.Vkey()", "==", "0")] ∧
+    GV.Gen.WitnessFacts.inputConds =
+      ["w != nil", "w != nil", "err != nil", "utxo.Output == nil", "!ok",
+       "addr.Type() == AddressTypeByron", "err != nil", "addrRoot == h", "!found"] ∧
+    GV.Gen.WitnessFacts.collateralConds =
+      ["len(collateral) == 0", "w == nil || len(w.Vkey()) == 0", "err != nil", "!ok", "!ok"] := by
   decide
 
 /-! ### non-vacuity on the symbolic instance -/
